@@ -3,7 +3,9 @@ CONSTANTS
   PKeys = {"a", "c", "plan_name", "scan_id"}
   OKeys = {"a", "c", "plan_name", "scan_id"}
   KKeys = {"a", "c", "plan_name", "scan_id"}
-  Vals = {1, 2}
+  PVals = {1}
+  OVals = {2}
+  KVals = {3}
   Idents = {24}
   VModes = {"accept", "reject"}
   NModes = {"identity", "rename", "reject"}
@@ -11,7 +13,7 @@ CONSTANTS
   RenTo = "c"
   MaxOpens = 1
   MaxCalls = 1
-  MaxCells = 3
+  MaxCells = 4
   RichRejects = FALSE
   Variant = "fixed"
   KeepHist = TRUE
